@@ -424,9 +424,6 @@ Qed.
 Lemma hex_encode_length : forall b, length (hex_encode b) = (2 * length b)%nat.
 Proof. induction b as [|x b IH]; cbn [hex_encode length]; [reflexivity|]. rewrite IH. lia. Qed.
 
-(* well-formed proof element: decodes to exactly L bytes *)
-Definition hex_ok (L : nat) (s : str) : bool :=
-  match hex_decode s with Some b => Nat.eqb (length b) L | None => false end.
 
 Lemma valid_hash_string_ok : forall L s, valid_hash_string L s = Ok tt <-> hex_ok L s = true.
 Proof.
@@ -606,13 +603,6 @@ Proof.
     guards; inversion E; reflexivity.
 Qed.
 
-(* a history of calls; a rejected call changes nothing *)
-Fixpoint wl_run (h : list (N * addr * wl_msg)) (s : wl_state) : wl_state :=
-  match h with
-  | [] => s
-  | (now, sender, m) :: r =>
-      match wl_execute now sender m s with Ok s' => wl_run r s' | Err => wl_run r s end
-  end.
 Theorem wl_root_immutable_history : forall h s, wl_root (wl_run h s) = wl_root s.
 Proof.
   induction h as [|[[now sender] m] r IH]; intro s; [reflexivity|].
@@ -630,12 +620,6 @@ Proof.
   - guards. inversion E. reflexivity.
   - guards. inversion E. reflexivity.
 Qed.
-Fixpoint tw_run (h : list (N * addr * tw_msg)) (s : tw_state) : tw_state :=
-  match h with
-  | [] => s
-  | (now, sender, m) :: r =>
-      match tw_execute now sender m s with Ok s' => tw_run r s' | Err => tw_run r s end
-  end.
 Theorem tw_roots_immutable_history : forall h s, tw_roots (tw_run h s) = tw_roots s.
 Proof.
   induction h as [|[[now sender] m] r IH]; intro s; [reflexivity|].
@@ -644,7 +628,6 @@ Proof.
 Qed.
 
 (* ---------- tiered: which root is consulted ---------- *)
-Definition stage_active (now : N) (s : stage) : bool := (st_start s <=? now) && (now <=? st_end s).
 
 Lemma active_index_spec : forall now l i, active_index now l = Some i ->
   (exists s, nth_error l i = Some s /\ stage_active now s = true) /\
@@ -728,8 +711,6 @@ Proof.
   cbn in E. discriminate.
 Qed.
 
-Definition head_nondigit (s : str) : Prop :=
-  match s with c :: _ => is_digit c = false | [] => False end.
 
 Lemma digit_prefix_split : forall d d' s s',
   Forall (fun c => is_digit c = true) d -> Forall (fun c => is_digit c = true) d' ->
@@ -808,3 +789,70 @@ Section Useless.
       destruct Hin as (e & Ee & Hin). exists e. split; [exact Hin|congruence].
   Qed.
 End Useless.
+
+(* ---------- the same, phrased on the whitelist-merkletree state (L = 32) ---------- *)
+Lemma wl_has_member_complete : forall (H : list N -> list N),
+  (forall x, length (H x) = 32%nat) -> (forall x, Forall (fun b => b < 256) (H x)) ->
+  forall (s : wl_state) (ms : list (list N)) (i : nat) (m : list N),
+  wl_root s = hex_encode (root H ms) -> nth_error ms i = Some m ->
+  wl_has_member H s m (map hex_encode (proof_at H ms i)) = Ok true.
+Proof.
+  intros H Hl Hb s ms i m Er Hi. unfold wl_has_member. rewrite Er.
+  exact (has_member_complete 32 H Hl Hb ms i m Hi).
+Qed.
+
+Lemma wl_has_member_sound : forall (H : list N -> list N), (forall x, length (H x) = 32%nat) ->
+  forall (s : wl_state) (ms : list (list N)) (m : list N) (p : list (list N)),
+  ms <> [] -> wl_root s = hex_encode (root H ms) ->
+  wl_has_member H s m p = Ok true ->
+  exists bs, Forall2 (fun h b => hex_decode h = Some b /\ length b = 32%nat) p bs /\
+   (In m ms \/
+    (exists x y, find_collision H (calls H ms m bs) = Some (x, y) /\ x <> y /\ H x = H y) \/
+    length m = 64%nat \/
+    (exists m', In m' ms /\ length m' = 64%nat)).
+Proof.
+  intros H Hl s ms m p Hne Er E. unfold wl_has_member in E. rewrite Er in E.
+  exact (has_member_sound 32 H Hl ms m p Hne E).
+Qed.
+
+Lemma wl_malformed_is_error : forall (H : list N -> list N) (s : wl_state) m p h,
+  In h p -> hex_ok 32 h = false -> wl_has_member H s m p = Err.
+Proof. intros H s m p h. exact (malformed_is_error 32 H (wl_root s) m p h). Qed.
+
+Lemma has_member_complete_16 : forall (H : list N -> list N),
+  (forall x, length (H x) = 16%nat) -> (forall x, Forall (fun b => b < 256) (H x)) ->
+  forall (ms : list (list N)) (i : nat) (m : list N),
+  nth_error ms i = Some m ->
+  has_member 16 H (hex_encode (root H ms)) m (map hex_encode (proof_at H ms i)) = Ok true.
+Proof. intros H Hl Hb. exact (has_member_complete 16 H Hl Hb). Qed.
+Lemma sound_32 : forall (H : list N -> list N), (forall x, length (H x) = 32%nat) ->
+  forall (ms : list (list N)) (m : list N) (p : list (list N)),
+  ms <> [] -> Forall (fun s => length s = 32%nat) p ->
+  verify H (root H ms) m p = true ->
+  In m ms \/
+  (exists x y, find_collision H (calls H ms m p) = Some (x, y) /\ x <> y /\ H x = H y) \/
+  length m = 64%nat \/
+  (exists m', In m' ms /\ length m' = 64%nat).
+Proof. intros H Hl. exact (sound 32 H Hl). Qed.
+Lemma sound_16 : forall (H : list N -> list N), (forall x, length (H x) = 16%nat) ->
+  forall (ms : list (list N)) (m : list N) (p : list (list N)),
+  ms <> [] -> Forall (fun s => length s = 16%nat) p ->
+  verify H (root H ms) m p = true ->
+  In m ms \/
+  (exists x y, find_collision H (calls H ms m p) = Some (x, y) /\ x <> y /\ H x = H y) \/
+  length m = 32%nat \/
+  (exists m', In m' ms /\ length m' = 32%nat).
+Proof. intros H Hl. exact (sound 16 H Hl). Qed.
+Lemma has_member_sound_16 : forall (H : list N -> list N), (forall x, length (H x) = 16%nat) ->
+  forall (ms : list (list N)) (m : list N) (p : list (list N)),
+  ms <> [] ->
+  has_member 16 H (hex_encode (root H ms)) m p = Ok true ->
+  exists bs, Forall2 (fun h b => hex_decode h = Some b /\ length b = 16%nat) p bs /\
+   (In m ms \/
+    (exists x y, find_collision H (calls H ms m bs) = Some (x, y) /\ x <> y /\ H x = H y) \/
+    length m = 32%nat \/
+    (exists m', In m' ms /\ length m' = 32%nat)).
+Proof. intros H Hl. exact (has_member_sound 16 H Hl). Qed.
+Lemma malformed_is_error_16 : forall (H : list N -> list N) root m p h,
+  In h p -> hex_ok 16 h = false -> has_member 16 H root m p = Err.
+Proof. intros H. exact (malformed_is_error 16 H). Qed.
